@@ -55,7 +55,7 @@ inductive RRet where | nil | transition | boot | serverErr | drain
   deriving DecidableEq, Repr
 
 inductive RunPc where
-  | idle | entered | probing | booted | select | afterSelect | toStop | stopped (drainErr : Bool) | returned (r : RRet)
+  | idle | entered | bootFailed | probing | booted | select | afterSelect | toStop | stopped (drainErr : Bool) | returned (r : RRet)
   deriving DecidableEq, Repr
 
 inductive Cb where | ok (cfg : Nat) | err | nil
@@ -90,7 +90,7 @@ structure St where
 
 
 inductive Act where
-  | runEnter | runBootBegin (res : Cb) (ok : Bool) | runProbeOk | runProbeFail (consume : Bool) | runToRunning
+  | runEnter | runBootBegin (res : Cb) (ok : Bool) | runBootFail | runProbeOk | runProbeFail (consume : Bool) | runToRunning
   | runSelCtx | runSelStop | runSelErr | runToStopping | runStopServer (inTime : Bool) | runFinish
   | rlEnter | rlConfig (res : Cb) (same : Bool) | rlAfterCb | rlStopOld (inTime : Bool) | rlBootBegin (ok : Bool) | rlProbeOk | rlProbeFail (consume : Bool)
   | instBind (i : Nat) | instBindFail (i : Nat)
@@ -127,12 +127,14 @@ def step (s : St) : Act → Option St
     | none => some { s with rctx := true, run := .returned .transition, runCancelled := true }
   | .runBootBegin res ok =>
     if s.run != .entered || s.mu.isSome then none else
-    let fail : St := { s with fsm := .error, run := .returned .boot, runCancelled := true }
+    let fail : St := { s with run := .bootFailed }     -- the callback's answer is seen; `setStateError()` comes later
     match s.cfg, res with
     | some _, _ => if ok then some { create s with mu := some .run, run := .probing } else some fail
     | none, .ok c => if ok then some { create { s with cfg := some c } with mu := some .run, run := .probing }
                      else some { fail with cfg := some c }
     | none, _ => some fail
+  | .runBootFail =>
+    if s.run != .bootFailed then none else some { s with fsm := .error, run := .returned .boot, runCancelled := true }
   | .runProbeOk =>
     if s.run == .probing && listening s && !s.runCancelled then some { s with mu := none, run := .booted } else none
   | .runProbeFail consume =>
